@@ -144,7 +144,9 @@ impl<'a> Packet<'a> {
         offset: &mut usize,
         items_count: u16,
     ) -> crate::Result<Vec<T>> {
-        let mut section_items = Vec::with_capacity(items_count as usize);
+        // every item takes at least one byte, do not let the header counts alone drive allocation
+        let remaining = data.len().saturating_sub(*offset);
+        let mut section_items = Vec::with_capacity(remaining.min(items_count as usize));
 
         for _ in 0..items_count {
             section_items.push(T::parse(data, offset)?);
